@@ -72,6 +72,44 @@ class World:
         self.pred_sets.append(sorted(ms))
         return len(self.preds) - 1
 
+    def instantiable(self, cid):
+        c = self.classes[cid]
+        if cid < self.nb:
+            return c in (object, int, str, bool, list, tuple, dict, float, type(None))
+        return self.spec[cid - self.nb]["kind"] != "proto"
+
+    def instance(self, cid, vid=0):
+        key = (cid, vid)
+        if not hasattr(self, "_inst"):
+            self._inst = {}
+        if key in self._inst:
+            return self._inst[key]
+        c = self.classes[cid]
+        if c is int:
+            v = 100 + vid
+        elif c is str:
+            v = f"s{vid}"
+        elif c is bool:
+            v = bool(vid % 2)
+        elif c is list:
+            v = [vid]
+        elif c is tuple:
+            v = (vid,)
+        elif c is dict:
+            v = {vid: vid}
+        elif c is float:
+            v = vid + 0.5
+        elif c is type(None):
+            v = None
+        else:
+            v = c()
+            try:
+                v._vid = vid
+            except AttributeError:
+                pass
+        self._inst[key] = v
+        return v
+
     def user_ids(self):
         return list(range(self.nb, self.n))
 
